@@ -464,7 +464,7 @@ struct Gen {
 				if(P.allow_overlap && rng.chance(1, 3)) { o.db = D; o.b = o.a; }  // same root: overlapping operands become likely
 				if(rng.chance(1, 2)) found = fit_view(o.db, o.b, dv, o.cb, sv);
 				if(!found && !find_view(o.db, o.b, o.kind == O_EASSIGN ? -1 : dv.D, &dv, o.kind == O_EASSIGN, o.cb, sv, 20)) continue;
-				o.var = o.kind == O_VASSIGN_VIEW ? rng.below(6) : o.kind == O_VSWAP ? rng.below(3) : rng.below(2);
+				o.var = o.kind == O_VASSIGN_VIEW ? rng.below(6) : o.kind == O_VSWAP ? rng.below(5) : rng.below(2);
 				if(o.kind == O_VASSIGN_VIEW && rng.chance(1, 8) && dv.D >= T.dmin && dv.D <= T.dmax) {  // whole moved array as source
 					for(int i = 0; i < NSLOT; ++i)
 						if(M.at(dv.D, i).alive && !(dv.D == D && i == o.a) && dims_equal(M.at(dv.D, i), dv.D, dv.n)) { o.db = dv.D; o.b = i; o.cb = Chain{}; o.var = 6; }
@@ -500,10 +500,11 @@ struct Gen {
 			}
 			case O_VASSIGN_CONV: case O_VASSIGN_RANGE: case O_VASSIGN_IL: case O_VFILL: case O_EASSIGN_IL: {
 				MView dv;
-				int const want = o.kind == O_VFILL ? 1 : -1;
+				int const fv   = o.kind == O_VFILL ? rng.below(4) : 0;  // 0: member fill (1-D views); 1..3: element by element through the flat iterators
+				int const want = o.kind == O_VFILL && fv == 0 ? 1 : -1;
 				if(!find_view(D, o.a, want, nullptr, false, o.ca, dv) || dv.count() == 0) continue;
 				o.v   = rval();
-				o.var = o.kind == O_VASSIGN_CONV ? rng.below(2) : o.kind == O_VASSIGN_RANGE ? rng.below(2) : 0;
+				o.var = o.kind == O_VASSIGN_CONV ? rng.below(2) : o.kind == O_VASSIGN_RANGE ? rng.below(2) : fv;
 				break;
 			}
 			case O_ELEM_WRITE: {
